@@ -41,8 +41,9 @@ static void pipeline(const uint8_t* d, size_t n, Outcome& o, bool want_ast) {
   cbor_describe(it, g_devnull);
   size_t sz = cbor_serialized_size(it);
   if (sz) { unsigned char* b = (unsigned char*)malloc(sz); size_t w = cbor_serialize(it, b, sz); if (w != sz) { o.pipeline_ok = false; o.note = "cbor_serialize returned " + std::to_string(w) + " for size " + std::to_string(sz); } free(b); }
+  uint64_t refused_before = va::g.refused_single + va::g.refused_total;
   cbor_item_t* cp = cbor_copy(it);
-  if (!cp) { o.pipeline_ok = false; o.note = "cbor_copy failed"; } else cbor_decref(&cp);
+  if (!cp) { if (va::g.refused_single + va::g.refused_total == refused_before) { o.pipeline_ok = false; o.note = "cbor_copy returned NULL although no allocation was refused"; } } else cbor_decref(&cp);
   cbor_decref(&it);
 }
 
@@ -194,7 +195,7 @@ static void run_campaigns(Ctx& ctx) {
 int main(int argc, char** argv) {
   g_devnull = fopen("/dev/null", "w");
   cbor_set_allocs(va::vmalloc, va::vrealloc, va::vfree);
-  va::g.single_cap = (size_t)1 << 16;
+  va::g.single_cap = (size_t)1 << 24;
   vh::Driver drv{"drv_nest", run_campaigns, run_case};
   return vh::driver_main(argc, argv, drv);
 }
